@@ -1,6 +1,6 @@
 """C04 — string, number and identifier tokens keep exactly the value the SQL text denotes."""
 import json, re, sys
-from tools.harness import common, lexh
+from tools.harness import common, lexh, hist
 from tools.harness.common import DIALECTS
 from tools.harness.lexh import enc, dec, dec_list
 
@@ -13,6 +13,10 @@ THEOREMS = ['MindsVerif.Props.C04.' + n for n in (
     'C04_identifier_bq_generic', 'C04_identifier_bq_mindsdb', 'C04_identifier_bq_mysql', 'C04_identifier_bq_sqlite',
     'phi4_mindsdb', 'phi4_mysql', 'phi4_sqlite', 'phi4h_mindsdb', 'phi4h_mysql', 'phi4h_sqlite',
     'C04_review_integer_lex', 'C04_review_digit_not_idLetter', 'C04_integer', 'C04_variable', 'C04_witness_variable',
+    # round 5: the text between parse_sql's argument and the lexer (Model/PreLex.lean); object histories (Model/Hist.lean)
+    'C04_prelex_exact', 'C04_prelex_prefix', 'C04_prelex_literal', 'C04_history_identifier', 'C04_history_identifier_mindsdb',
+    'C04_history_identifier_mysql', 'C04_history_identifier_sqlite', 'C04_history_constant', 'C04_history_obs_pure',
+    'C04_memo_iff', 'C04_witness_stale_cache',
     # history / regression theorems about the OLD variants (Model/Lex.lean: string codec before 2843e02, identifier codec
     # before the doubled back-quote); no stream drives these models while codecFixed / bqDoubled are on
     'C04_old_identifier_partial', 'C04_old_identifier_mindsdb', 'C04_old_identifier_mysql', 'C04_old_identifier_sqlite',
@@ -33,6 +37,12 @@ ASSUME = [
     'variables: Variable.get_string and the VARIABLE / SYSTEM_VARIABLE rules + decoding are hand-modelled (Model/Lex.lean), tied by the '
     'variable-print / variable-roundtrip streams (mysql, mindsdb); the quantifier domain is the names some source text denotes (VarOK)',
     'the `C04_old_*` theorems speak about the former codecs (Model/Lex.lean) and are not tied to the live code',
+    'pre-lexing step of parse_sql (re.sub of the trailing [\\s;] run) is hand-modelled (Model/PreLex.lean); tie = `prelex` stream: the text the real '
+    'parse_sql hands to lexer.tokenize is captured (get_lexer_parser wrapped for the call) and compared with the model, and `\\s` is compared with '
+    'the live re module over all of Unicode (`pyspace`)',
+    'object histories: the live printers are modelled as functions of the current attributes (Hist.runLive); tie = `ident-history` stream (same '
+    'list edits / observations on a real Identifier) and the history probe over every node class the templates of tools/harness/hist.py reach; '
+    'Python list semantics of pop / insert / item assignment are transcribed for valid indices only',
 ]
 
 KIND_Q = {"'": ('scanq', 'spec1', True), '"': ('scandq', 'spec2', False)}
@@ -89,19 +99,22 @@ def ident_classes(dialect, parts, kfwords):
 
 
 # ------------------------------------------------------------------------------------------ probes
-def probe_literal(dialect, q, body):
-    """P1: a source literal (by the spec grammar) must be read as a constant holding the denoted value"""
+def probe_literal(dialect, q, body, trail='', got=None):
+    """P1: a source literal (by the spec grammar), optionally followed by white space / semicolons that end the
+    statement, must be read as a constant holding the denoted value"""
     src = q + body + q
     sp = lexh.spec_scan(src, q, q == "'")
     if sp is None or sp[1] != '':
         return None, None
     items = sp[0]
     want = lexh.denote(items, q)
-    got = lexh.observe_select(dialect, src)
+    if got is None:
+        got = lexh.observe_select(dialect, src + trail)
     if got == ('str', want):
         return True, None
-    return False, dict(kind='decode', desc='literal %r is read as %r, denotes %r' % (src, got, want), dialect=dialect,
-                       text=src, quote=q, expected=want, got=list(got), classes=literal_classes(dialect, q, items),
+    return False, dict(kind='decode', desc='literal %r%s is read as %r, denotes %r' % (src, ' followed by %r' % trail if trail else '', got, want),
+                       dialect=dialect, text=src, trail=trail, quote=q, expected=want, got=list(got),
+                       classes=literal_classes(dialect, q, items),
                        **{'class': 'decode/%s/%s' % (dialect, '+'.join(literal_classes(dialect, q, items)) or 'NEW')})
 
 
@@ -222,6 +235,124 @@ def probe_number_source(dialect, txt):
                 got=list(got), classes=[], **{'class': 'number-source/NEW'})
 
 
+def probe_history(ti, edits):
+    """P7: a statement tree that is looked at (str, to_string, to_tree, ==, repr, copies) between in-place edits of its
+    nodes prints what an unobserved tree with the same edits prints (A) and the text denotes, at the edited place, the
+    value the node holds now (B)"""
+    try:
+        r = hist.run_history(ti, edits)
+    except Exception as e:
+        r = dict(oracle='exc', step=-1, why='%s: %s' % (type(e).__name__, e))
+    if r is None:
+        return None
+    e = edits[r['step']] if 0 <= r['step'] < len(edits) else {}
+    what = '%s.%s %s' % (e.get('cls'), e.get('attr'), e.get('op'))
+    return dict(kind='history', desc='%r printed / compared, then %s in place (%s): %s' % (
+        hist.TEMPLATES[ti], what, json.dumps([(x['path'], x['attr'], x['op'], x['args']) for x in edits[:r['step'] + 1]], ensure_ascii=False), r['why']),
+        dialect='mindsdb', template=ti, edits=edits[:r['step'] + 1], oracle=r['oracle'], classes=[],
+        **{'class': 'history/%s/%s/NEW' % (r['oracle'], what)})
+
+
+IDENT_HIST_WORDS = ['Int1', 'My Tab', 'select', 'a.b', 'x', 'NAME', 'Name', 't', 'a`b', '1a', 'é', 'Proj.A', 'tbl', 'a\r\nb', 'ORDER', 'c$']
+
+
+def gen_ident_history(rng):
+    """(initial parts, events) for a bare Identifier; events: ('P',) print, ('Q', kind) silent observation,
+    ('A', parts) assign, ('O', i) pop, ('I', i, part) insert, ('X', part) append, ('S', i, part) item assignment,
+    ('E', parts) extend, ('R',) reverse — indices valid, the list never becomes empty"""
+    w = lambda: rng.choice(IDENT_HIST_WORDS)
+    cur = [w() for _ in range(rng.randint(1, 3))]
+    evs = [('A', list(cur))]
+    for _ in range(rng.randint(2, 7)):
+        r = rng.random()
+        if r < 0.3:
+            evs.append(('P',))
+        elif r < 0.45:
+            evs.append(('Q', rng.choice(['str', 'eq', 'tree', 'copy', 'repr', 'get_string'])))
+        else:
+            k = rng.choice('OISXERA')
+            if k == 'O' and len(cur) > 1:
+                i = rng.randrange(len(cur)); cur.pop(i); evs.append(('O', i))
+            elif k == 'I':
+                i = rng.randint(0, len(cur) + 1); x = w(); cur.insert(i, x); evs.append(('I', i, x))
+            elif k == 'S':
+                i = rng.randrange(len(cur)); x = rng.choice([w(), cur[i].upper(), cur[i].swapcase()]); cur[i] = x; evs.append(('S', i, x))
+            elif k == 'X':
+                x = w(); cur.append(x); evs.append(('X', x))
+            elif k == 'E':
+                xs = [w() for _ in range(rng.randint(1, 2))]; cur.extend(xs); evs.append(('E', xs))
+            elif k == 'R':
+                cur.reverse(); evs.append(('R',))
+            elif k == 'A':
+                cur = [w() for _ in range(rng.randint(1, 3))]; evs.append(('A', list(cur)))
+    evs.append(('P',))
+    return evs
+
+
+def ident_history_line(d, evs):
+    enc_parts = lambda ps: '|'.join(enc(p) for p in ps) if ps else '~'
+    items = []
+    for e in evs:
+        if e[0] == 'Q':
+            continue
+        if e[0] in 'PR':
+            items.append(e[0])
+        elif e[0] in 'AE':
+            items.append('%s:%s' % (e[0], enc_parts(e[1])))
+        elif e[0] == 'O':
+            items.append('O:%d' % e[1])
+        elif e[0] == 'X':
+            items.append('X:%s' % enc(e[1]))
+        else:
+            items.append('%s:%d:%s' % (e[0], e[1], enc(e[2])))
+    return 'hist %s %s' % (d, '/'.join(items))
+
+
+def run_ident_history(evs):
+    """the same history on a real Identifier: [(parts held, text printed)] for every ('P',)"""
+    import copy as _copy
+    from mindsdb_sql.parser.ast import Identifier
+    node, out = None, []
+    for e in evs:
+        k = e[0]
+        if k == 'A':
+            if node is None:
+                node = Identifier(parts=list(e[1]))
+            else:
+                node.parts = list(e[1])
+        elif k == 'P':
+            out.append((list(node.parts), node.to_string()))
+        elif k == 'Q':
+            {'str': lambda: str(node), 'eq': lambda: node == _copy.deepcopy(node), 'tree': lambda: node.to_tree(),
+             'copy': lambda: _copy.copy(node), 'repr': lambda: repr(node), 'get_string': lambda: node.get_string()}[e[1]]()
+        elif k == 'O':
+            node.parts.pop(e[1])
+        elif k == 'I':
+            node.parts.insert(e[1], e[2])
+        elif k == 'S':
+            node.parts[e[1]] = e[2]
+        elif k == 'X':
+            node.parts.append(e[1])
+        elif k == 'E':
+            node.parts.extend(e[1])
+        elif k == 'R':
+            node.parts.reverse()
+    return out
+
+
+def probe_ident_history(dialect, evs, kfwords):
+    """P7i: whatever happened to an Identifier before, the text it prints is read back as the parts it holds now"""
+    evs = [tuple(e) for e in evs]
+    for held, txt in run_ident_history(evs):
+        got = lexh.observe_select(dialect, txt)
+        if got != ('ident', held):
+            cls = ident_classes(dialect, held, kfwords)
+            return dict(kind='ident-history', desc='Identifier after %s holds parts=%r, prints %r, read back as %r' % (
+                json.dumps(evs, ensure_ascii=False), held, txt, got), dialect=dialect, events=[list(e) for e in evs], parts=held, text=txt,
+                got=list(got), classes=cls, **{'class': 'ident-history/%s/%s' % (dialect, '+'.join(cls) or 'NEW')})
+    return None
+
+
 # ------------------------------------------------------------------------------------------ streams
 PLAIN_WORDS = ['t1$id', 'tbl1$x', '1a$b', 'a$', '$a', '$', 'a$$b', '1$', '$1', 'a$1', 'A_1$b2', 'x', 'Ab', '_x', '1a', 'a1', '9_', 'col$']
 WORDS = PLAIN_WORDS + ['a', 'B1', '_x', '1a', '1', 'x$', 'é', 'a b', 'a.b', 'ıf', 'Ab', 'a-b', '*', '"a"', "'a'", 'a\nb', ' ',
@@ -278,14 +409,18 @@ def run(chk):
     bodies_parse = list(lexh.strings_upto(n_parse))
     rand_bodies = [lexh.random_string(rng, n_parse + 1, 9, extra=rng.choice(['', 'n%', "''", '\\\\', '\\\''])) for _ in range(n_rand)]
     rand_bodies += [lexh.random_string(rng, 1, 8, alphabet=lexh.UNICODE_POOL + ["'", '\\', '"']) for _ in range(n_rand // 3)]
+    # round 5: contents with every ordered pair of control / white-space characters (CR LF, LF CR, TAB, VT, FF, FS-US, NEL,
+    # LS, PS) and what Unicode / blank / case normalisations, BOM / NUL stripping or quote replacement would change
+    ctrl_bodies = list(dict.fromkeys(lexh.ctrl_contents() + lexh.NORMALISE_POOL))
+    ctrl_words = [b for b in ctrl_bodies if b and '\x00' not in b and (b.startswith('a') or b in lexh.NORMALISE_POOL)]
     # (i) scanners vs the real lexer's first token (master regex + action); text = delimiter + string
-    for b in bodies_scan + rand_bodies:
+    for b in bodies_scan + rand_bodies + ctrl_bodies:
         for q, (op, sop, dbl) in KIND_Q.items():
             for d in ('mindsdb', 'sqlite'):
                 ask(('scan', d, q, q + b), '%s %s %s' % (op, 'mindsdb' if FIXED else d, enc(q + b)))
             ask(('spec', q, q + b), '%s - %s' % (sop, enc(q + b)))
     # (ii) decode model vs parse_sql, closed literals
-    for b in bodies_parse + rand_bodies:
+    for b in bodies_parse + rand_bodies + ctrl_bodies:
         for q in KIND_Q:
             for d in DIALECTS:
                 ask(('read', d, q, q + b + q), READ % (d, enc(q + b + q)))
@@ -299,7 +434,7 @@ def run(chk):
                 for d in DIALECTS:
                     ask(('read', d, q, q + b + q), READ % (d, enc(q + b + q)))
     # (iii) encoders
-    values = bodies_parse + rand_bodies
+    values = bodies_parse + rand_bodies + ctrl_bodies
     for v in values:
         ask(('enc', v), '%s - %s' % ('enc2' if FIXED else 'enc', enc(v)))
     # identifiers: parts over word pools (every keyword word of every dialect included)
@@ -310,6 +445,9 @@ def run(chk):
         for w in pool:
             for parts in ([w], [w.lower()], ['t', w], [w.capitalize(), 'c']):
                 ident_cases.append((d, parts))
+        for w in ctrl_words:
+            ident_cases.append((d, [w]))
+            ident_cases.append((d, ['t', w]))
         for _ in range(300 if quick else 5000):
             ident_cases.append((d, [rngi.choice(pool) if rngi.random() < 0.6 else
                                     lexh.random_string(rngi, 1, 4, alphabet=['a', 'B', '1', '_', '.', '$', 'é', ' ', 's', 'E'])
@@ -344,6 +482,8 @@ def run(chk):
     VAR_NAMES = ['var1', 'utf8mb4', 'p2', 'q.2', 'a b', 'x1y', 'a1', 'A_1', '1a', 'a`b', 'a"`', 'a\'"`', 'sql_mode', 'session.auto',
                  '$x', '.x', 'a-b', 'a@b', '@a', 'a\nb', 'v9', 'x_1.y2', 'a' * 12 + '7', 'ı1', 'İx', '\u212a9', 'éa', 'aé', 'a ', ' a']
     VAR_NAMES += list(lexh.strings_upto(2 if quick else 3, alphabet=['a', 'B', '1', '_', '.', '$', ' ', '`', '"', "'", 'é', 'ı']))
+    VAR_NAMES += ['a' + a + 'x' for a in lexh.CTRL] + ['a' + a + b + 'x' for a in lexh.CTRL for b in lexh.CTRL
+                                                        if a == b or a in '\r\n' or b in '\r\n']
     rngv = common.rng_for(chk.seed, 'C04/var')
     VAR_NAMES += [lexh.random_string(rngv, 3, 8, alphabet=['a', 'Z', '0', '9', '_', '.', '$', ' ', '`', '"', "'", 'x']) for _ in range(150 if quick else 4000)]
     for nm in VAR_NAMES:
@@ -425,7 +565,7 @@ def run(chk):
                 elif model is None and got[0] == 'str':
                     diverge('decode', dict(dialect=d, text=text, model=o, impl=list(got)))
                 # impl-level probe P1 on the same input
-                ok, f = probe_literal(d, q, text[1:-1])
+                ok, f = probe_literal(d, q, text[1:-1], got=got)
                 if ok is not None:
                     bump('P1/%s/%s' % (d, 'ok' if ok else 'fail'))
                 if f:
@@ -542,6 +682,90 @@ def run(chk):
         for name, (cases, div, first) in corr.items():
             chk.corr_result(name, cases, div, first, dist if name == 'decode' else None)
 
+    # ---------------------------------------------------------------- round 5: second driver (pre-lexing step, histories)
+    TRAILS = ['', ';', ' ;\r\n', '\r\n', '\u2028;\x1f', '\n', '\t; ;\x0b\x0c', '\x85\xa0', '\u3000;\u2029', ';;\r']
+    FRONTS = ['select ', 'select\r\n', 'SELECT 1,\r\n\t', 'select\u2028']
+    lines2, metas2 = ['pyspace - 200000'], [('pyspace',)]
+    for i, b in enumerate(ctrl_bodies):
+        q = ("'", '"', '`')[i % 3]
+        d = DIALECTS[(i // 3) % 3]
+        lit = q + (b.replace('`', '') if q == '`' else b) + q
+        for trail in (TRAILS[i % len(TRAILS)], TRAILS[(i // 3) % len(TRAILS)]):
+            text = FRONTS[(i // 9) % len(FRONTS)] + lit + trail
+            lines2.append('prelex - ' + enc(text)); metas2.append(('prelex', d, text, q, lit, trail))
+    ws_pts = lexh.py_space_points()
+    for t in ['', ';', ' ', '\r\n', ';\r\n;', "select 'a',\r\n  b\r\nfrom t\r\nwhere c = 'd'\r\n;\r\n", 'select 1 -- c\r\n', 'select 1 /* c */ ;',
+              "select 'a;\r\n' ; ", 'select `a;` ;\n', "select 'x'\r", "select 'x'\n\r"] + \
+             ["select 'v'" + chr(c) for c in ws_pts + [0x1b, 0x84, 0x86, 0x180e, 0x200b, 0x2060, 0xfeff, 0x3b, 0x37e, 0xff1b, 0]]:
+        lines2.append('prelex - ' + enc(t)); metas2.append(('prelex', DIALECTS[len(lines2) % 3], t, None, None, None))
+    rngh = common.rng_for(chk.seed, 'C04/history')
+    for i in range(250 if quick else 5000):
+        evs = gen_ident_history(rngh)
+        d = DIALECTS[i % 3]
+        lines2.append(ident_history_line(d, evs)); metas2.append(('hist', d, evs))
+    outs2 = None
+    try:
+        outs2 = common.lean_run('LexHist', lines2)
+    except Exception as e:
+        chk.oblige('corr:driver2', 'correspondence', False, 'driver failed: %s' % e)
+    corr2 = {k: [0, 0, None] for k in ('pyspace', 'prelex', 'ident-history')}
+
+    def diverge2(name, info):
+        c = corr2[name]
+        c[1] += 1
+        if c[2] is None:
+            c[2] = info
+    for meta, o in zip(metas2, outs2 or [None] * len(metas2)):
+        if meta[0] == 'pyspace':
+            if o is not None:
+                corr2['pyspace'][0] += 1
+                if o != ','.join(str(c) for c in ws_pts) or any(c >= 200000 for c in ws_pts):
+                    diverge2('pyspace', dict(model=o, python=ws_pts))
+        elif meta[0] == 'prelex':
+            _, d, text, q, lit, trail = meta
+            chk.count(('prelex', d, text))
+            real = lexh.lexer_input(d, text)
+            if o is not None:
+                corr2['prelex'][0] += 1
+                if real is None or enc(real) != o:
+                    diverge2('prelex', dict(dialect=d, text=text, model=dec(o), impl=real))
+            if q in ("'", '"'):
+                ok, f = probe_literal(d, q, lit[1:-1], trail=trail)
+                if ok is not None:
+                    bump('P1t/%s/%s' % (d, 'ok' if ok else 'fail'))
+                if f:
+                    record(f)
+        elif meta[0] == 'hist':
+            _, d, evs = meta
+            chk.count(('hist', d, repr(evs)))
+            real = run_ident_history(evs)
+            if o is not None:
+                corr2['ident-history'][0] += 1
+                model = [] if o == '-' else [x.split('>') for x in o.split(' ')]
+                if [enc(t) for _, t in real] != [m[0] for m in model]:
+                    diverge2('ident-history', dict(dialect=d, events=evs, model=[dec(m[0]) for m in model], impl=[t for _, t in real]))
+                else:
+                    for (held, txt), m in zip(real, model):
+                        got = lexh.observe_select(d, txt)
+                        if m[1].startswith('some') and got != ('ident', dec_list(m[1][4:])):
+                            diverge2('ident-history', dict(dialect=d, events=evs, text=txt, model=m[1], impl=list(got)))
+            f = probe_ident_history(d, evs, kfwords)
+            bump('P7i/%s/%s' % (d, 'fail' if f else 'ok'))
+            if f:
+                record(f)
+    if outs2 is not None:
+        for name, (cases, div, first) in corr2.items():
+            chk.corr_result(name, cases, div, first)
+    # P7: statement trees observed between in-place edits (every node class the templates reach)
+    for ti in range(len(hist.TEMPLATES)):
+        for _ in range(12 if quick and not broken else 60):
+            edits = hist.gen_history(ti, rngh)
+            chk.count(('history', ti, json.dumps(edits, sort_keys=True, default=str)))
+            f = probe_history(ti, edits)
+            bump('P7/%s' % ('fail' if f else 'ok'))
+            if f:
+                record(f)
+
     # ---------------------------------------------------------------- probes that need no model line
     for d, parts in ident_cases:
         chk.count(('identp', d, tuple(parts)))
@@ -617,8 +841,12 @@ def run(chk):
 def replay_witness(w, kfwords=None):
     kind = w['kind']
     if kind == 'decode':
-        ok, f = probe_literal(w['dialect'], w['quote'], w['text'][1:-1])
+        ok, f = probe_literal(w['dialect'], w['quote'], w['text'][1:-1], trail=w.get('trail', ''))
         return f
+    if kind == 'history':
+        return probe_history(w['template'], w['edits'])
+    if kind == 'ident-history':
+        return probe_ident_history(w['dialect'], w['events'], kfwords or {})
     if kind == 'encode':
         fs = probe_print_value('mindsdb', w['value'])
         return fs[0] if fs else None
